@@ -605,6 +605,13 @@ func registerNatives(in *Interp) {
 	n["bytes.Equal"] = func(in *Interp, fn *ssa.Function, args []Value) Value {
 		return in.strEq(in.bytesToStr(args[0].(SliceV)), in.bytesToStr(args[1].(SliceV)))
 	}
+	// constant-time comparisons are compiler intrinsics in recent Go releases; their
+	// result is byte equality (timing is not modelled)
+	n["crypto/hmac.Equal"] = n["bytes.Equal"]
+	n["crypto/subtle.ConstantTimeCompare"] = func(in *Interp, fn *ssa.Function, args []Value) Value {
+		eq := in.strEq(in.bytesToStr(args[0].(SliceV)), in.bytesToStr(args[1].(SliceV)))
+		return in.tb.Ite(eq, in.tb.Int(1), in.tb.Int(0))
+	}
 	n["(*bytes.Buffer).Write"] = func(in *Interp, fn *ssa.Function, args []Value) Value {
 		s := args[1].(SliceV)
 		in.bufferAppend(args[0].(Ptr), in.sliceMem(s), s.Off, s.Len, s.Max)
